@@ -47,10 +47,18 @@ def parseRes : String → Option WaitRes
   | "E" => some .echild
   | s => s.toNat?.map .reaped
 
-/-- mode `wait`: `spawn` | `round <res per tracked child>` | `close id` | `dec w` | `reset` -/
+def spawnWith (s : WS) (r : PipeRead) : WS × List String :=
+  let o := spawnParent r
+  let s' : WS := { n := s.n + 1, tracked := if o.activated then s.tracked ++ [s.n] else s.tracked }
+  let line := if o.ret = 0 then s!"ret 0 active {if o.activated then 1 else 0}"
+    else s!"ret {o.ret} active {if o.activated then 1 else 0} reaped {if o.reapedSync then 1 else 0}"
+  (s', [line, dumpTracked s'.tracked])
+
+/-- mode `wait`: `spawn` | `spawnfail errno` | `round <res per tracked child>` | `close id` | `dec w` | `reset` -/
 def waitStep (s : WS) : List String → WS × List String
   | ["reset"] => ({}, [dumpTracked []])
-  | ["spawn"] => let s' : WS := { n := s.n + 1, tracked := s.tracked ++ [s.n] }; (s', [dumpTracked s'.tracked])
+  | ["spawn"] => spawnWith s .eof
+  | ["spawnfail", e] => spawnWith s (.errno (nat! e))
   | ["close", id] =>
     let s' : WS := { s with tracked := s.tracked.filter (· ≠ nat! id) }; (s', [dumpTracked s'.tracked])
   | "round" :: rs =>
